@@ -7,6 +7,13 @@ Open Scope N_scope.
 Lemma cf_ipdb_methods_locked : gf_ipdb_methods_locked = true.
 Proof. reflexivity. Qed.
 
+(* handleDiscover touches the lease database in exactly one call (OfferIP: search and hold under one lock);
+   handleRequest in the order range test, lookup, hold, update - the step structure the model has *)
+Lemma cf_discover_single_db_step : gf_discover_single_db_step = true.
+Proof. reflexivity. Qed.
+Lemma cf_request_db_steps : gf_request_db_steps = true.
+Proof. reflexivity. Qed.
+
 (* run.go starts handlers with the decoded message passed by value *)
 Lemma cf_handler_started_by_value : gf_handler_started_by_value = true.
 Proof. reflexivity. Qed.
